@@ -42,8 +42,8 @@ Record satq := mkSatq {
   sq_avg : option Q;             (* avg_satisfaction *)
   sq_neh : option Q;             (* percent_non_empty_handed (asked with measure 3 only) *)
   sq_pos : option Q;             (* percent_positive_satisfaction *)
-  sq_gini : option Q;            (* gini_coefficient_of_satisfaction *)
-  sq_gini_inv : option Q;        (* ... invert=True *)
+  sq_gini : option (option Q);      (* gini_coefficient_of_satisfaction; Some None = ValueError *)
+  sq_gini_inv : option (option Q);  (* ... invert=True *)
   sq_hist : list (nat * Q * list Q)   (* num_bins, max_satisfaction, returned list *)
 }.
 
@@ -178,6 +178,17 @@ Definition ocmp (exact : bool) (r : option Q) (v : option Q) : bool :=
   | Some x => match v with Some y => cmp exact x y | None => false end
   end.
 
+(* answers that may be an exception: None = not asked, Some None = raised *)
+Definition ocmp_r (exact : bool) (r : option (option Q)) (v : option Q) : bool :=
+  match r with
+  | None => true
+  | Some None => match v with None => true | Some _ => false end
+  | Some (Some x) => match v with Some y => cmp exact x y | None => false end
+  end.
+(* Gini of the voters' satisfactions: undefined (ValueError) as soon as one voter has a negative satisfaction *)
+Definition gini_def (S : list Q) (inv : bool) : option Q :=
+  if existsb (fun v => Qltb v 0) S then None else Some (if inv then 1 - gini S else gini S).
+
 (* the three approval measures the oracle recomputes from the ballots *)
 Definition sat_def (I : inst) (W : list nat) (meas : nat) (b : bal) : Q :=
   let common := filter (fun p => memb p W) (bprojs b) in
@@ -209,10 +220,10 @@ Definition check_satq (c : case) (s : satq) : list nat :=
   ++ flag (ocmp ex (sq_neh s) (Some (avg_satisfaction Sc))) 221
   ++ flag (ocmp true (sq_pos s) (match S with [] => None | _ => Some (share_positive S) end)) 122
   ++ flag (ocmp true (sq_pos s) (percent_positive_satisfaction Sc)) 222
-  ++ flag (ocmp ex (sq_gini s) (Some (gini S))) 123
-  ++ flag (ocmp ex (sq_gini s) (gini_of_satisfaction Sc false)) 223
-  ++ flag (ocmp ex (sq_gini_inv s) (Some (1 - gini S))) 124
-  ++ flag (ocmp ex (sq_gini_inv s) (gini_of_satisfaction Sc true)) 224
+  ++ flag (ocmp_r ex (sq_gini s) (gini_def S false)) 123
+  ++ flag (ocmp_r ex (sq_gini s) (gini_of_satisfaction Sc false)) 223
+  ++ flag (ocmp_r ex (sq_gini_inv s) (gini_def S true)) 124
+  ++ flag (ocmp_r ex (sq_gini_inv s) (gini_of_satisfaction Sc true)) 224
   ++ flat_map (check_hist S Sc) (sq_hist s).
 
 (* ----- category proportionality ----- *)
